@@ -211,6 +211,17 @@ def rsaDecryptHashed (P : Prims) (Q : NumPrims) (key : PrivKey) (data : Bytes) :
     | some d => .ok d
     | none => .error .mismatch
 
+/-! ## RSA key fingerprint (rsa_fingerprint.go) -/
+
+/-- `(*big.Int).Bytes()`: minimal big-endian bytes (`[]` for 0). -/
+def beMin (n : Nat) : Bytes := if n = 0 then [] else beBytes (n.log2 / 8 + 1) n
+
+/-- `crypto.RSAFingerprint`: the low 64 bits (little endian) of
+`SHA1(TL-bytes(n.Bytes()) ‖ TL-bytes(e.Bytes()))`, i.e. bytes 12..19 of the digest, as an unsigned
+64-bit pattern (Go returns it as `int64`). -/
+def rsaFingerprint (P : Prims) (key : PubKey) : Nat :=
+  fromLE (((P.sha1 (putBytes (beMin key.n) ++ putBytes (beMin key.e))).drop 12).take 8)
+
 /-! ## The specification text (core.telegram.org/mtproto/auth_key, "RSA_PAD(data, server_public_key)")
 written down independently of the code, for given random choices. -/
 namespace Spec
